@@ -152,27 +152,69 @@ Print Assumptions unique_preserved_delete.
 
 (* ------------------------------------------------------------------ 7. control *)
 
+Lemma memN_In' u l : memN u l = true <-> In u l.
+Proof.
+  unfold memN. rewrite existsb_exists. split.
+  - intros [x [Hx He]]. apply N.eqb_eq in He. subst. exact Hx.
+  - intros H. exists u. split; [exact H|apply N.eqb_refl].
+Qed.
+
+Lemma nodupN_iff l : nodupN l = true <-> NoDup l.
+Proof.
+  induction l as [|x r IH]; cbn [nodupN].
+  - split; [constructor|reflexivity].
+  - rewrite andb_true_iff, negb_true_iff, IH. split.
+    + intros [Hn Hr]. constructor; [|exact Hr]. intros Hin. apply memN_In' in Hin. congruence.
+    + intros H. inversion H as [|? ? Hn Hr]; subst. split; [|exact Hr].
+      destruct (memN x r) eqn:E; [|reflexivity]. apply memN_In' in E. contradiction.
+Qed.
+
 (* the invariant implies the check run on every loaded index *)
 Theorem control_of_inv fds ix : OIInv fds ix -> oi_control ix = true.
 Proof.
-  intros I. unfold oi_control. apply forallb_forall. intros o Ho. destruct o as [l|]; [|reflexivity].
+  intros I. unfold oi_control. apply andb_true_iff. split.
+  { apply nodupN_iff. apply (inv_uuid_nodup _ _ I). }
+  apply forallb_forall. intros o Ho. destruct o as [l|]; [|reflexivity].
   apply In_nth_error in Ho. destruct Ho as [i Hi].
-  destruct (inv_fields _ _ I i l Hi) as [Hs [Hnd Hoids]]. apply andb_true_iff. split.
+  destruct (inv_fields _ _ I i l Hi) as [Hs [Hnd Hoids]].
+  rewrite !andb_true_iff. split; [split; [split|]|].
   - apply key_control_iff_sorted. exact Hs.
   - apply Nat.eqb_eq.
     assert (P : Permutation (key_oids l) (map fst (oi_ids ix)))
       by (apply NoDup_Permutation; [exact Hnd|apply (inv_oid_nodup _ _ I)|exact Hoids]).
     apply Permutation_length in P. unfold oids in P. rewrite !map_length in P. exact P.
+  - apply nodupN_iff. exact Hnd.
+  - apply forallb_forall. intros e He. apply memN_In'. apply Hoids. unfold oids. apply in_map. exact He.
 Qed.
 Print Assumptions control_of_inv.
 
-(* the converse as far as it goes: control only sees order and lengths *)
+(* THE CONVERSE (what the load-time check buys, C19): an index that passes control, whose object-id
+   table has distinct keys (it was decoded from a JSON object into a Go map), has distinct uuids and
+   every field index is well formed with respect to the id table: ordered, one entry per stored
+   object id, no entry of an unknown id *)
+Theorem control_true_wf ix : oi_control ix = true -> NoDup (map fst (oi_ids ix)) ->
+  NoDup (map snd (oi_ids ix)) /\
+  forall i l, nth_error (oi_fx ix) i = Some (Some l) -> fx_wf (oi_ids ix) l.
+Proof.
+  intros H Hk. unfold oi_control in H. apply andb_true_iff in H. destruct H as [Hu Hf].
+  split; [apply nodupN_iff; exact Hu|]. intros i l Hl.
+  pose proof (proj1 (forallb_forall _ _) Hf (Some l) (nth_error_In _ _ Hl)) as Hc. cbn beta iota in Hc.
+  rewrite !andb_true_iff in Hc. destruct Hc as [[[H1 H2] H3] H4].
+  apply key_control_iff_sorted in H1. apply Nat.eqb_eq in H2. apply nodupN_iff in H3.
+  assert (Hincl : incl (key_oids l) (map fst (oi_ids ix))).
+  { intros oid Hin. unfold oids in Hin. apply in_map_iff in Hin. destruct Hin as [e [<- He]].
+    apply memN_In'. apply (proj1 (forallb_forall _ _) H4 e He). }
+  split; [exact H1|]. split; [exact H3|]. intros oid. split; [apply Hincl|].
+  apply (NoDup_length_incl H3); [|exact Hincl]. unfold oids. rewrite !map_length. apply Nat.eq_le_incl. symmetry. exact H2.
+Qed.
+Print Assumptions control_true_wf.
+
 Theorem control_true_partial ix : oi_control ix = true ->
   forall i l, nth_error (oi_fx ix) i = Some (Some l) -> key_sorted l /\ length l = length (oi_ids ix).
 Proof.
-  intros H i l Hl. unfold oi_control in H.
+  intros H i l Hl. unfold oi_control in H. apply andb_true_iff in H. destruct H as [_ H].
   pose proof (proj1 (forallb_forall _ _) H (Some l) (nth_error_In _ _ Hl)) as Hc. cbn beta iota in Hc.
-  apply andb_true_iff in Hc. destruct Hc as [H1 H2]. split.
+  rewrite !andb_true_iff in Hc. destruct Hc as [[[H1 H2] _] _]. split.
   - apply key_control_iff_sorted. exact H1.
   - apply Nat.eqb_eq. exact H2.
 Qed.
@@ -608,18 +650,18 @@ Proof.
   - destruct i; discriminate.
 Qed.
 
-(* control does not imply the invariant: it does not look at object ids.  This index passes
-   control, but its only entry belongs to no stored object (and deleting uuid 7 panics) *)
+(* D7e of the pinned tree: this index, whose only entry belongs to no stored object (deleting uuid
+   7 panics), used to pass control; the strengthened control of the current tree rejects it *)
 Definition oiex_bad : oindex :=
   {| oi_next := 1; oi_ids := [(0%N, 7%N)]; oi_fx := [Some [(KInt 1, 5%N)]; Some [(KStr [], 5%N)]; None] |}.
-Example oiex_control_not_inv :
-  oi_control oiex_bad = true /\ ~ OIInv oiex_fds oiex_bad /\ oi_delete oiex_bad 7%N = None.
+Example oiex_ghost_id_rejected :
+  oi_control oiex_bad = false /\ ~ OIInv oiex_fds oiex_bad /\ oi_delete oiex_bad 7%N = None.
 Proof.
   split; [vm_compute; reflexivity|]. split; [|vm_compute; reflexivity].
   intros I. destruct (inv_fields _ _ I 0 [(KInt 1, 5%N)] eq_refl) as [_ [_ H]].
   specialize (proj1 (H 5%N) (or_introl eq_refl)). cbn. intros [Hc|[]]. discriminate.
 Qed.
-Print Assumptions oiex_control_not_inv.
+Print Assumptions oiex_ghost_id_rejected.
 
 (* reload: the ids of stored objects stay reserved, but the id of a DELETED object with the
    largest id is handed out again (the counter is rebuilt from the table) *)
